@@ -11,7 +11,7 @@ TRAJ = ("maximum", "revolve")
 
 
 def basic(tier):
-    nmax = 8 if tier == "quick" else 24
+    nmax = 12 if tier == "quick" else 32
     out = []
     for n in range(1, nmax + 1):
         for k in (1, 2, 3):
@@ -20,7 +20,7 @@ def basic(tier):
 
 
 def twolevel(tier):
-    pmax, bmax, k = (6, 3, 2) if tier == "quick" else (12, 5, 3)
+    pmax, bmax, k = (10, 4, 2) if tier == "quick" else (16, 6, 3)
     out = []
     for p in range(1, pmax + 1):
         for b in range(0, bmax + 1):
@@ -32,7 +32,7 @@ def twolevel(tier):
 
 
 def multistage(tier):
-    nmax, umax = (16, 4) if tier == "quick" else (40, 6)
+    nmax, umax = (24, 5) if tier == "quick" else (48, 7)
     out = []
     for n in range(1, nmax + 1):
         units = sorted(set(list(range(0, umax + 1)) + [n - 2, n - 1, n, n + 1]) - {-1})
@@ -48,7 +48,7 @@ def multistage(tier):
 
 
 def mixed(tier):
-    nmax = 24 if tier == "quick" else 48
+    nmax = 32 if tier == "quick" else 64
     out = []
     for n in range(1, nmax + 1):
         for s in range(min(1, n - 1), n + 3):
@@ -59,7 +59,7 @@ def mixed(tier):
 
 
 def revolve3(tier):
-    nmax, cmax = (24, 4) if tier == "quick" else (48, 6)
+    nmax, cmax = (30, 5) if tier == "quick" else (56, 7)
     out = []
     for n in range(1, nmax + 1):
         for cm in range(1, cmax + 1):
@@ -70,7 +70,7 @@ def revolve3(tier):
 
 
 def hrevolve(tier):
-    nmax, c0max, c1max = (20, 3, 3) if tier == "quick" else (36, 4, 4)
+    nmax, c0max, c1max = (24, 3, 3) if tier == "quick" else (40, 4, 4)
     out = []
     for n in range(1, nmax + 1):
         for c0 in range(1, c0max + 1):
@@ -128,7 +128,7 @@ def units(rng, n):
 
 def random_streams(seed, tier):
     rng = random.Random(seed)
-    count = 300 if tier == "quick" else 6000
+    count = 800 if tier == "quick" else 8000
     big = tier != "quick"
     out = []
     for _ in range(count):
